@@ -33,9 +33,21 @@ for i in range(n):
                     errors.append(f"thread {t} item {i}: got {got!r:.80}")
         except Exception as e:
             errors.append(f"thread {t}: {type(e).__name__}: {e!s:.100}")
+    stop = []
+    def headers_only():
+        # data-less frames (CHANNEL_CLOSE of fresh channels, STATUS requests) from yet another thread while the bulk frames are in flight
+        try:
+            while not stop:
+                c = gw.newchannel(); c.close()
+                gw.remote_status()
+        except Exception as e:
+            if not stop: errors.append(f"header-only sender: {type(e).__name__}: {e!s:.100}")
     ths = [threading.Thread(target=worker, args=(t, ch)) for t, ch in enumerate(chans)]
+    hd = threading.Thread(target=headers_only)
     for th in ths: th.start()
+    hd.start()
     for th in ths: th.join(120)
+    stop.append(1); hd.join(30)
     print(json.dumps({"failed": bool(errors), "detail": errors[:4]}))
 finally:
     group.terminate(timeout=2)
